@@ -234,8 +234,10 @@ pub fn repair_plan_history(rec: &mut Recorder, rng: &mut Rng, thorough: bool) {
 
 // long windows (thousands of packets in one request) against single requests and overlapping windows
 pub fn repair_long_windows(rec: &mut Recorder, rng: &mut Rng, thorough: bool) {
-    let mut ks: Vec<u32> = vec![1, 10, 12, 26, 55];
-    for _ in 0..(if thorough { 10 } else { 2 }) { ks.push(pick_k(rng, 120)); }
+    // (window lengths of 3000 / 12000 are many multiples of L for small blocks and a few multiples for blocks of some
+    // hundred symbols: block sizes from several Table-2 rows, whose W, P, P1 differ)
+    let mut ks: Vec<u32> = vec![1, 10, 12, 26, 55, 80, 101, 160, 257];
+    for _ in 0..(if thorough { 10 } else { 2 }) { ks.push(pick_k(rng, 340)); }
     for k in ks {
         let t = rng.range(1, 5) as u16;
         let data = rng.bytes(k as usize * t as usize);
@@ -252,6 +254,10 @@ pub fn repair_long_windows(rec: &mut Recorder, rng: &mut Rng, thorough: bool) {
             for i in sm { if enc.repair_packets(s + i, 1)[0] != w[i as usize] { bad.push(format!("packet {i} of the window differs from the single request for repair index {}", s + i)); } }
             let o = enc.repair_packets(s + n / 3, n / 4);
             for (i, p) in o.iter().enumerate() { if *p != w[(n / 3) as usize + i] { bad.push(format!("overlapping window starting at {} disagrees at repair index {}", s + n / 3, s + n / 3 + i as u32)); break; } }
+            for start in [0u32, n / 2, n - 48] {
+                let o2 = enc.repair_packets(s + start, 48);
+                for (i, p) in o2.iter().enumerate() { if *p != w[start as usize + i] { bad.push(format!("short window of 48 starting at {} disagrees at repair index {}", s + start, s + start + i as u32)); break; } }
+            }
             bad
         });
         match r {
@@ -522,6 +528,10 @@ pub fn object(rec: &mut Recorder, rng: &mut Rng, thorough: bool) {
 pub fn object_many_symbols(rec: &mut Recorder, rng: &mut Rng, thorough: bool) {
     let mut cases: Vec<(u64, u16, u8)> = vec![(131071, 2, 255), (210001, 3, 200), (65535, 1, 3), (65536, 1, 3)];
     if thorough { cases.extend([(131069u64, 2u16, 255u8), (131073, 2, 254), (65537, 1, 2), (300000, 1, 7), (1 << 20, 4, 19)]); }
+    // objects beyond 4 GiB: byte offsets no longer fit 32 bits although symbol counts do (the buffer is never touched:
+    // zero pages from the allocator; only its length is read)
+    cases.extend([((1u64 << 32) + 70_000, 65535u16, 2u8), (4_500_000_000, 32768, 130), ((1 << 33) + 12_345, 65528, 3), ((1 << 32) - 1, 65535, 2)]);
+    if thorough { for _ in 0..12 { let t = 65535 - rng.below(40000) as u16; let f = (1u64 << 32) + rng.below(6 << 30); let z = rng.range(((f / t as u64 + 1 + 56402) / 56403).max(2), 255) as u8; cases.push((f, t, z)); } }
     for _ in 0..(if thorough { 40 } else { 2 }) {
         let t = rng.range(1, 4) as u16;
         let kt = rng.range(60000, if thorough { 400000 } else { 140000 });
@@ -772,6 +782,40 @@ pub fn decblk_directed(rec: &mut Recorder, rng: &mut Rng, thorough: bool) {
             while esis.len() < k as usize + 4 { esis.insert(pick_repair_esi(rng, k)); }
             for e in &esis { batches.push(vec![enc.repair_packets(e - k, 1).remove(0)]); }
             rec.count("directed_identical_row_flood");
+            run_block_history(rec, k, t, 1, 1, cfg, &data, batches, it % 2 == 0, 3);
+        }
+    }
+}
+
+// (d) a long rank-deficient prefix: take a non-zero witness block w (1-byte symbols); every repair symbol id at which w
+//     encodes to 0 gives a row orthogonal to w's intermediate symbols, and so does every constraint row - any number of
+//     such symbols leaves the block undetermined (far more than L, K'+H+64, 2L ... of them), until other symbols arrive
+pub fn decblk_deficient_prefix(rec: &mut Recorder, rng: &mut Rng, thorough: bool) {
+    for &k in (if thorough { &[10u32, 11, 26, 28, 40][..] } else { &[10u32, 28][..] }) {
+        let kp = rq::extended_source_block_symbols(k);
+        let (hh, ss) = (rq::num_hdpc_symbols(k), rq::num_ldpc_symbols(k));
+        let l = kp + hh + ss;
+        let wdata = loop { let d = rng.bytes(k as usize); if d.iter().any(|b| *b != 0) { break d; } };
+        let wenc = SourceBlockEncoder::new(0, &cfg_for(k, 1, 1, 1), &wdata);
+        let scan = wenc.repair_packets(0, 120_000);
+        let zero_esis: Vec<u32> = scan.iter().filter(|p| p.data()[0] == 0).map(|p| p.payload_id().encoding_symbol_id()).collect();
+        for it in 0..(if thorough { 6 } else { 2 }) {
+            let want = match it % 3 { 0 => (kp + hh + 64 + 3 + rng.below(30) as u32) as usize, 1 => (2 * l + rng.below(20) as u32) as usize, _ => (l + 1 + rng.below(l as u64) as u32) as usize };
+            if zero_esis.len() < want { rec.count("deficient_prefix_too_few_ids"); continue; }
+            let t = rng.range(1, 3) as u16;
+            let data = rng.bytes(k as usize * t as usize);
+            let cfg = cfg_for(k, t, 1, 1);
+            let enc = SourceBlockEncoder::new(0, &cfg, &data);
+            let mut ids = zero_esis.clone();
+            rng.shuffle(&mut ids);
+            let flood: Vec<EncodingPacket> = ids[..want].iter().map(|e| enc.repair_packets(e - k, 1).remove(0)).collect();
+            let mut batches: Vec<Vec<EncodingPacket>> = vec![];
+            match it % 2 { 0 => { batches.push(flood[..k as usize].to_vec()); for c in flood[k as usize..].chunks(7) { batches.push(c.to_vec()); } }, _ => batches.push(flood.clone()) }
+            let mut esis = std::collections::BTreeSet::new();
+            while esis.len() < k as usize + 3 { let e = pick_repair_esi(rng, k); if !ids[..want].contains(&e) { esis.insert(e); } }
+            for e in &esis { batches.push(vec![enc.repair_packets(e - k, 1).remove(0)]); }
+            rec.count("directed_deficient_prefix");
+            rec.add("deficient_prefix_rows", want as u64);
             run_block_history(rec, k, t, 1, 1, cfg, &data, batches, it % 2 == 0, 3);
         }
     }
@@ -1192,6 +1236,41 @@ pub fn linear_wide(rec: &mut Recorder, rng: &mut Rng, thorough: bool) {
 
 // exact Clopper–Pearson lower confidence bound for a binomial proportion: the p with
 // P(X >= k | n, p) = alpha (0 when k = 0)
+// the largest blocks with small-but-not-tiny symbols (slabs of some megabytes whose rows are shorter than a vector
+// register): byte column j of every packet is the packet of column j encoded alone, and the block round-trips.
+// Unchecked builds only (checked builds re-verify the solver's matrix in O(L^3)).
+pub fn linear_huge_blocks(rec: &mut Recorder, rng: &mut Rng, thorough: bool) {
+    if checked_build() { return; }
+    let cases: Vec<(u32, u16)> = if thorough { vec![(40000, 56), (56403, 40), (33000, 63), (56403, 63), (20000, 120)] } else { vec![(40000 + rng.below(9000) as u32, 37 + rng.below(27) as u16)] };
+    for (k, t) in cases {
+        let data = rng.bytes(k as usize * t as usize);
+        let cols: Vec<usize> = vec![0, t as usize - 1, rng.below(t as u64) as usize];
+        let start = rng.below(1 << 22) as u32;
+        let r = guarded(move || {
+            let mut bad = vec![];
+            let enc = SourceBlockEncoder::new(0, &cfg_for(k, t, 1, 1), &data);
+            let rep = enc.repair_packets(start, 6);
+            for j in cols {
+                let col: Vec<u8> = (0..k as usize).map(|i| data[i * t as usize + j]).collect();
+                let e1 = SourceBlockEncoder::new(0, &cfg_for(k, 1, 1, 1), &col);
+                let r1 = e1.repair_packets(start, 6);
+                for (a, b) in rep.iter().zip(&r1) { if a.data()[j] != b.data()[0] { bad.push(format!("byte {j} of repair packet ESI {} differs from the packet of byte column {j} encoded alone", a.payload_id().encoding_symbol_id())); break; } }
+            }
+            let mut pk = enc.source_packets();
+            for i in [0usize, 17, 4000, k as usize - 1] { pk[i] = rep[0].clone(); }
+            pk.extend(rep[1..].iter().cloned());
+            let mut dec = SourceBlockDecoder::new(0, &cfg_for(k, t, 1, 1), k as u64 * t as u64);
+            if dec.decode(pk).as_deref() != Some(&data[..]) { bad.push("the block does not round-trip with four lost source symbols".into()); }
+            bad
+        });
+        match r {
+            Ok(bad) => for b in bad.iter().take(3) { rec.impl_violation(format!("huge block K={k} T={t}: {b}")); },
+            Err(_) => rec.impl_violation(format!("encoder/decoder panics for the huge block K={k} T={t}")),
+        }
+        rec.count("linear_huge_blocks");
+    }
+}
+
 pub fn cp_lower(k: u64, n: u64, alpha: f64) -> f64 {
     if k == 0 { return 0.0; }
     let tail_ge = |p: f64| -> f64 {
